@@ -384,7 +384,13 @@ class MergeEngine:
     @staticmethod
     def get_remove_cset(engine, csets):
         """Generate the cset of what files shall be removed from the livefs."""
-        return csets["old_cset"].difference(csets["install"])
+        # compare by where the entries live: the two packages may name the same
+        # object through different sides of a symlinked directory (/lib -> lib64)
+        realpath = livefs._realpath_dir()
+        installing = {realpath(x.location) for x in csets["install"]}
+        return contents.contentsSet(
+            x for x in csets["old_cset"] if realpath(x.location) not in installing
+        )
 
     @staticmethod
     def get_replace_cset(engine, csets):
